@@ -37,17 +37,28 @@ def run(ctx, b, broken):
                     su.violation(text, "re-laying out the program changed the regenerated C text", {"other_layout": ref[2]})
     # redundant parentheses around operands other than comma expressions
     g = cgen.Gen(ctx.rng)
-    for _ in range(600 if ctx.tier == "quick" else 8000):
-        e = g.expr(ctx.rng.randint(2, 4))
+    # every position of the grammar that takes an expression: (tokens before, precedence level the position requires, tokens after)
+    FN = ["void", "f", "(", "void", ")", "{"]
+    CONTEXTS = [(FN, 1, [";", "}"]), (FN + ["return"], 1, [";", "}"]), (FN + ["if", "("], 1, [")", ";", "}"]), (FN + ["while", "("], 1, [")", ";", "}"]),
+                (FN + ["for", "(", ";"], 1, [";", ")", ";", "}"]), (FN + ["switch", "(", "x", ")", "{", "case"], 3, [":", ";", "}", "}"]),
+                (FN + ["g", "("], 2, [",", "y", ")", ";", "}"]), (FN + ["a", "["], 1, ["]", ";", "}"]), (FN + ["x", "=", "sizeof"], 15, [";", "}"]),
+                (["enum", "E", "{", "K", "="], 3, ["}", ";"]), (["enum", "E", "{", "A", ",", "K", "="], 3, [",", "B", "}", ";"]),
+                (["int", "a", "["], 2, ["]", ";"]), (["struct", "S", "{", "int", "f", ":"], 3, [";", "}", ";"]), (["int", "x", "="], 2, [";"]),
+                (["int", "a", "[", "]", "=", "{", "["], 3, ["]", "=", "1", "}", ";"]), (["int", "a", "[", "]", "=", "{"], 2, [",", "2", "}", ";"]),
+                (["_Static_assert", "("], 3, [",", "\"m\"", ")", ";"]), (["_Alignas", "("], 3, [")", "int", "x", ";"]),
+                (["struct", "S", "s", "=", "{", ".", "m", "="], 2, ["}", ";"]), (["int", "x", "=", "(", "int", ")"], 14, [";"])]
+    for _ in range(900 if ctx.tier == "quick" else 12000):
+        e = g.expr(ctx.rng.choice([0, 1, 1, 2, 2, 3, 4]))
+        pre, prec, post = ctx.rng.choice(CONTEXTS)
         keys = []
         for mode in ("min", "rand", "full"):
             tk = cgen.Toks()
-            tk.adds("void", "f", "(", "void", ")", "{")
+            tk.adds(*pre)
             try:
-                g.emit_expr(e, tk, 1, mode)
+                g.emit_expr(e, tk, prec, mode)
             except RecursionError:
                 break
-            tk.adds(";", "}")
+            tk.adds(*post)
             text, _ = cgen.layout(tk.t, ctx.rng, "single")
             ctx.evaluations += 1
             ctx.count("parens:" + mode)
